@@ -128,3 +128,153 @@ def rst_close(conn):
     except OSError:
         pass
     conn.close()
+
+
+class ScriptedPeer(object):
+    """C19: an HTTP peer that treats the n-th request it receives according to a script item.
+    Items: H (healthy keep-alive), HC (healthy, Connection: close, then close), CB (close before reply), RS (reset),
+    E4L (404 with length), E5L (500 with length, body looks like an HTTP 200 reply carrying a stale result),
+    E5N (503 without length, then close), BS (bodiless 204, keep-alive), B3 (bodiless 304, keep-alive), TR (truncated body),
+    E0 (empty 200), NJ (non-JSON 200), S202 (202 with Content-Length 0), S203 (203 with a JSON body carrying a foreign token).
+    'RF' (refuse) is handled by the driver: down() closes the listener and every connection, up() reopens the same address.
+    Requests beyond the script are healthy."""
+
+    def __init__(self, unix_path=None):
+        self.unix_path = unix_path
+        self.script = []
+        self.log = []           # (token, item)
+        self.lock = threading.Lock()
+        self.conns = set()
+        self.port = None
+        self.sock = None
+        self.up()
+
+    def up(self):
+        if self.unix_path:
+            try:
+                os.unlink(self.unix_path)
+            except OSError:
+                pass
+            s = socket.socket(socket.AF_UNIX, socket.SOCK_STREAM)
+            s.bind(self.unix_path)
+        else:
+            s = socket.socket(socket.AF_INET, socket.SOCK_STREAM)
+            s.setsockopt(socket.SOL_SOCKET, socket.SO_REUSEADDR, 1)
+            s.bind(("127.0.0.1", self.port or 0))
+            self.port = s.getsockname()[1]
+        s.listen(16)
+        self.sock = s
+        threading.Thread(target=self._serve, args=(s,), daemon=True).start()
+
+    def down(self):
+        try:
+            self.sock.shutdown(socket.SHUT_RDWR)      # wakes the blocked accept(): the listener really goes away
+        except OSError:
+            pass
+        try:
+            self.sock.close()
+        except OSError:
+            pass
+        if self.unix_path:
+            try:
+                os.unlink(self.unix_path)
+            except OSError:
+                pass
+        with self.lock:
+            conns = list(self.conns)
+        for c in conns:
+            try:
+                c.shutdown(socket.SHUT_RDWR)
+            except OSError:
+                pass
+            try:
+                c.close()
+            except OSError:
+                pass
+
+    def url(self):
+        return "unix+http://%s" % self.unix_path if self.unix_path else "http://127.0.0.1:%d/rpc" % self.port
+
+    def _serve(self, s):
+        while True:
+            try:
+                conn, _ = s.accept()
+            except OSError:
+                return
+            with self.lock:
+                self.conns.add(conn)
+            threading.Thread(target=self._conn, args=(conn,), daemon=True).start()
+
+    def _conn(self, conn):
+        buf = b""
+        try:
+            while True:
+                r = _recv_request(conn, buf)
+                if r is None:
+                    return
+                head, body, buf = r
+                try:
+                    req = json.loads(body.decode("utf-8"))
+                    token = req["params"][0] if isinstance(req, dict) else None
+                    rid = req.get("id") if isinstance(req, dict) else None
+                    v2 = isinstance(req, dict) and "jsonrpc" in req
+                except (ValueError, KeyError, IndexError, TypeError):
+                    token, rid, v2 = None, None, True
+                with self.lock:
+                    item = self.script.pop(0) if self.script else "H"
+                    self.log.append((token, item))
+
+                def reply_json(tok):
+                    d = {"jsonrpc": "2.0", "id": rid, "result": tok} if v2 else {"id": rid, "result": tok, "error": None}
+                    return json.dumps(d).encode()
+
+                def send(status, body_bytes, extra=b"", length=True):
+                    h = b"HTTP/1.1 " + status + b"\r\nContent-Type: application/json-rpc\r\n"
+                    if length:
+                        h += b"Content-Length: " + str(len(body_bytes)).encode() + b"\r\n"
+                    conn.sendall(h + extra + b"\r\n" + body_bytes)
+                if item == "H":
+                    send(b"200 OK", reply_json(token))
+                elif item == "HC":
+                    send(b"200 OK", reply_json(token), extra=b"Connection: close\r\n")
+                    return
+                elif item == "CB":
+                    return
+                elif item == "RS":
+                    rst_close(conn)
+                    return
+                elif item == "E4L":
+                    send(b"404 Not Found", b"nothing here")
+                elif item == "E5L":
+                    stale = reply_json("stale-token")
+                    send(b"500 Internal Server Error", b"HTTP/1.1 200 OK\r\nContent-Length: " + str(len(stale)).encode() + b"\r\n\r\n" + stale)
+                elif item == "E5N":
+                    send(b"503 Service Unavailable", b"down", length=False)
+                    return
+                elif item == "BS":
+                    send(b"204 No Content", b"", length=False)
+                elif item == "B3":
+                    send(b"304 Not Modified", b"", length=False)
+                elif item == "TR":
+                    full = reply_json(token)
+                    conn.sendall(b"HTTP/1.1 200 OK\r\nContent-Type: application/json-rpc\r\nContent-Length: " + str(len(full) + 50).encode() + b"\r\n\r\n" + full[:5])
+                    return
+                elif item == "E0":
+                    send(b"200 OK", b"")
+                elif item == "NJ":
+                    send(b"200 OK", b"<html>not json</html>")
+                elif item == "S202":
+                    send(b"202 Accepted", b"")
+                elif item == "S203":
+                    send(b"203 Non-Authoritative Information", reply_json("foreign-token"))
+                else:
+                    send(b"200 OK", reply_json(token))
+        except OSError:
+            pass
+        finally:
+            with self.lock:
+                self.conns.discard(conn)
+            try:
+                conn.close()
+            except OSError:
+                pass
